@@ -3,6 +3,7 @@ import Driver.Flow
 import Driver.InfoModel
 import Driver.V5
 import Driver.Json
+import Driver.CacheFile
 open Driver Vflow
 
 /-- driver state: one model template cache per protocol, reset by `new` -/
@@ -25,6 +26,14 @@ def handle (st : DState) (line : String) : DState × String :=
     ({ st with nf9 := c' }, showResult res)
   | ["nf5", a, d] => (st, nf5Line (unhexArg a) (unhexArg d))
   | ["json", p, a, h, r] => (st, jsonLine p a h r)
+  | ["cf-dump", p] => (st, hex (CacheFile.dumpJson (p == "ipfix") (if p == "ipfix" then st.ipfix else st.nf9)))
+  | ["cf-list", p] => (st, listCache (if p == "ipfix" then st.ipfix else st.nf9))
+  | ["cf-load", p, doc] =>
+    match parseDoc doc with
+    | none => (st, "bad-op")
+    | some d =>
+      let c := CacheFile.loadDoc d
+      (if p == "ipfix" then { st with ipfix := c } else { st with nf9 := c }, "loaded " ++ listCache c)
   | ["elem", p, i] => (st, elemLine p i)
   | _ => (st, "bad-op")
 
